@@ -1,6 +1,8 @@
 package kernel
 
 import (
+	"verif/sim/seams/simctx"
+
 	"bytes"
 	"encoding/json"
 	"flag"
@@ -155,6 +157,7 @@ func cmdChild(props map[string]Property, args []string) int {
 		fmt.Fprintln(os.Stderr, "unknown property", *prop)
 		return ExitInfra
 	}
+	simctx.StartMemoryMonitor(256 << 20)
 	col := NewCollector()
 	if *mark != "" {
 		f, err := os.Create(*mark)
@@ -272,6 +275,7 @@ func cmdExec(props map[string]Property, args []string) int {
 	if p == nil {
 		return ExitInfra
 	}
+	simctx.StartMemoryMonitor(256 << 20)
 	v := SafeExec(p, c)
 	if v != nil {
 		out, _ := json.Marshal(v)
@@ -304,6 +308,7 @@ func cmdMinimise(props map[string]Property, args []string) int {
 	if p == nil {
 		return ExitInfra
 	}
+	simctx.StartMemoryMonitor(256 << 20)
 	res := minimiseResult{Got: "held"}
 	write := func() {
 		bs, _ := json.Marshal(res)
